@@ -17,11 +17,14 @@ vars == <<kind, b, t, n, pc, i, steps, recorded, nreset, nsetrng, asked>>
 Init == /\ kind \in {"mcmc", "vi"} /\ b \in 0..MaxB /\ t \in 1..MaxT /\ n \in 1..MaxN
         /\ pc = "reset" /\ i = 0 /\ steps = 0 /\ recorded = << >> /\ nreset = 0 /\ nsetrng = 0 /\ asked = << >>
 
-Reset == /\ pc = "reset" /\ steps' = 0 /\ nreset' = nreset + 1
-         /\ pc' = IF kind = "mcmc" THEN "setrng" ELSE "setrng"
+\* the two preliminaries (the statement fixes no order between them): the model is reset and handed its generator,
+\* each exactly once, before the first step
+AfterPre(r, g) == IF r = 1 /\ g = 1 THEN (IF kind = "mcmc" THEN "burn" ELSE "visample") ELSE "reset"
+Reset == /\ pc = "reset" /\ nreset = 0 /\ steps' = 0 /\ nreset' = 1
+         /\ pc' = AfterPre(1, nsetrng)
          /\ UNCHANGED <<kind, b, t, n, i, recorded, nsetrng, asked>>
-SetRng == /\ pc = "setrng" /\ nsetrng' = nsetrng + 1
-          /\ pc' = IF kind = "mcmc" THEN "burn" ELSE "visample"
+SetRng == /\ pc = "reset" /\ nsetrng = 0 /\ nsetrng' = 1
+          /\ pc' = AfterPre(nreset, 1)
           /\ UNCHANGED <<kind, b, t, n, i, steps, recorded, nreset, asked>>
 BurnStep == /\ pc = "burn" /\ i < b
             /\ steps' = steps + 1 /\ i' = i + 1
